@@ -116,7 +116,7 @@ Proof.
   destruct msg as [y|]; [|apply ExtB_refl].
   set (s1 := emits now m Handler (h_msg h) (say m Handler (HHandle y now) s)).
   assert (E1 : ExtB now s s1) by (apply ExtB_say_emits; reflexivity).
-  destruct (h_extra h) as [|d|trig r|site trig]; try (eapply ExtB_trans; [exact E1|apply ExtB_panic_if]).
+  destruct (h_extra h) as [|d|trig r pan|site trig since]; try (eapply ExtB_trans; [exact E1|apply ExtB_panic_if]).
   destruct (y =? trig); [|exact E1].
   eapply ExtB_trans; [exact E1|].
   exists [mk m Handler (HShut r)]. cbn [lg buf shut dead say]. split; [reflexivity|].
